@@ -1927,8 +1927,10 @@ def subset_glyphs(self, s):
 # CBDT will inherit it
 @_add_method(ttLib.getTableClass("EBDT"))
 def subset_glyphs(self, s):
+    # keep each strike's own order: toXML walks these dicts, and s.glyphs is a set
     strikeData = [
-        {g: strike[g] for g in s.glyphs if g in strike} for strike in self.strikeData
+        {g: bitmap for g, bitmap in strike.items() if g in s.glyphs}
+        for strike in self.strikeData
     ]
     # Prune empty strikes
     # https://github.com/fonttools/fonttools/issues/1633
